@@ -54,6 +54,10 @@ RunStrict(v, cons, x) ==
 (* ---- M: lax (transforming) validators as coded (C03) ------------------------------------------------------------- *)
 \* helpers on exact rationals: floor(a / m) * m  for m > 0, as [n, d]
 FloorDivMul(a, m) == LET q == (a.n * m.d) \div (a.d * m.n) IN [n |-> q * m.n, d |-> m.d]
+TruncDivMul(a, m) == LET num == a.n * m.d  den == a.d * m.n
+                         q == IF (num >= 0) = (den > 0) THEN (IF num >= 0 THEN num ELSE -num) \div (IF den > 0 THEN den ELSE -den)
+                              ELSE -((IF num >= 0 THEN num ELSE -num) \div (IF den > 0 THEN den ELSE -den))
+                     IN [n |-> q * m.n, d |-> m.d]
 Take(v, k) == IF Container(v) THEN [v EXCEPT !.items = SubSeq(v.items, 1, k), !.ln = k] ELSE [v EXCEPT !.ln = k, !.s = "?"]
 RECURSIVE Dedup(_, _)
 Dedup(items, acc) == IF items = <<>> THEN acc
@@ -66,11 +70,21 @@ LaxV(v, c) ==
                          ELSE IF ~Sized(v) \/ LenCode(v) < c.n THEN FailV(v) ELSE OkV(Take(v, c.n))   \* value[:lg]
     [] c.c = "max_length" -> IF LenCode(v) <= c.n THEN OkV(v) ELSE IF ~Sized(v) THEN FailV(v) ELSE OkV(Take(v, c.n))
     [] c.c = "multiple_of" -> IF MultipleOf(v, c) THEN OkV(v)
-                              ELSE LET f == FloorDivMul(v, c) IN OkV([v EXCEPT !.n = f.n, !.d = f.d]) \* (value // of) * of
+                              ELSE LET f == IF v.k = "dec" THEN TruncDivMul(v, c) ELSE FloorDivMul(v, c)      \* Decimal.__floordiv__ truncates toward zero
+                                   IN OkV([v EXCEPT !.n = f.n, !.d = f.d])                                    \* (value // of) * of
     [] c.c = "unique_items" -> OkV([v EXCEPT !.items = Dedup(v.items, <<>>)])
     [] c.c = "const" -> OkV(c.vals[1])
     [] c.c = "enum" -> IF InList(v, c.vals) THEN OkV(v) ELSE OkV(c.vals[1])                           \* list(lst)[0]
     [] OTHER -> OkV(v)                                                                               \* rounding validators: not modelled
+\* Rule.parse: the validators run in ConsOrder, each in its declared mode (strict or lax), threading the value
+RECURSIVE RunRule(_, _, _)
+RunRule(v, cons, x) ==
+  IF x > Len(ConsOrder) THEN OkV(v)
+  ELSE LET here == {y \in 1..Len(cons) : cons[y].c = ConsOrder[x]} IN
+       IF here = {} THEN RunRule(v, cons, x + 1)
+       ELSE LET c == cons[CHOOSE y \in here : TRUE]
+                r == IF c.lax THEN LaxV(v, c) ELSE Strict(v, c)
+            IN IF r.ok THEN RunRule(r.v, cons, x + 1) ELSE r
 \* P for C03 on the model: one lax step is a fixed point and, on exact domains, satisfies the strict form
 Modelled(c) == c.c \in {"ge", "le", "length", "max_length", "multiple_of", "unique_items", "const", "enum"}
 P_LaxFixedPoint(v, c) == Modelled(c) /\ LaxV(v, c).ok =>
